@@ -56,9 +56,11 @@ impl FixedTxWitnessesSet {
             self.tx_witnesses_set.vkeys = Some(vkeys);
         }
         if let Some(vkeys) = &mut self.tx_witnesses_set.vkeys {
-            vkeys.add(vkey_witness);
+            // a witness that is already there leaves the field untouched: its original bytes stay
+            if vkeys.add(vkey_witness) {
+                self.raw_parts.vkeys = None;
+            }
         }
-        self.raw_parts.vkeys = None;
     }
 
     pub fn add_bootstrap_witness(&mut self, bootstrap_witness: &BootstrapWitness) {
@@ -73,9 +75,11 @@ impl FixedTxWitnessesSet {
             self.tx_witnesses_set.bootstraps = Some(bootstraps);
         }
         if let Some(bootstraps) = &mut self.tx_witnesses_set.bootstraps {
-            bootstraps.add(bootstrap_witness);
+            // a witness that is already there leaves the field untouched: its original bytes stay
+            if bootstraps.add(bootstrap_witness) {
+                self.raw_parts.bootstraps = None;
+            }
         }
-        self.raw_parts.bootstraps = None;
     }
 
     pub fn to_bytes(&self) -> Vec<u8> {
